@@ -163,7 +163,7 @@ def rule_E1(ctx):
                     raise AnalysisError(f'{f.key}: no pattern parameter')
                 pat = params[1]
                 names = G.rebound_names(f, pat)
-                g = G.find_guard(f, lambda t: any(G.test_is_empty(t, v) for v in names), exc={'ValueError', 'CreationError', 'InterpretError'})
+                g = G.find_guard(f, lambda t: any(G.test_is_empty(t, v) for v in names), exc={'ValueError', 'CreationError', 'InterpretError'}, dominate_returns=True)
                 if g is not None:
                     r.ok(f'{f.key} guard', {'instance': f.key, 'guard': norm(g.test)})
                     continue
@@ -207,7 +207,15 @@ def rule_E2(ctx):
                   and x.func.attr == '_validate_slice']
         vline = min((x.lineno for x in vcalls), default=None)
         res = (True, 'validated' if vcalls else 'forwarded')
-        for x in own_walk(f.node):
+        # every normal exit must come after the validation (or after the forwarding call): no early `return` that skips it
+        fwd_lines = [cs.node.lineno for cs in fa.calls if isinstance(cs.node, ast.Call) and cs.targets and
+                     any(isinstance(a, ast.Name) and a.id in ('start', 'end') for a in list(cs.node.args) + [k.value for k in cs.node.keywords])]
+        gate = vline if vline is not None else (min(fwd_lines) if fwd_lines else None)
+        if gate is not None:
+            for x in own_walk(f.node):
+                if isinstance(x, ast.Return) and x.lineno < gate:
+                    res = (False, x)
+        for x in own_walk(f.node) if res[0] else ():
             if isinstance(x, ast.Name) and x.id in ('start', 'end') and isinstance(x.ctx, ast.Load):
                 if vline is not None and x.lineno >= vline:
                     continue          # at or after validation (the names are rebound to validated values)
@@ -239,6 +247,10 @@ def rule_E2(ctx):
                     ok, info = ok_func(f, c)
                     if ok:
                         r.ok(f'{c}.{name}', {'instance': f'{c}.{name}', 'verdict': info})
+                    elif isinstance(info, ast.Return):
+                        r.fail(f.key, f'{name}: return before start/end validation', f"{c}.{name} can return ({norm(info)[:40]}) before start/end have been "
+                               'validated or handed to the function that validates them: on that path an invalid range is silently accepted '
+                               '(and a ranged operation may do nothing)', loc=f.loc(info))
                     else:
                         r.fail(f.key, f'{name}: {info.id} used before validation', f"{c}.{name} uses '{info.id}' before (or without) passing start/end "
                                'through _validate_slice: negative, reversed or out-of-range windows are not rejected with ValueError', loc=f.loc(info))
@@ -296,7 +308,28 @@ def rule_E3(ctx):
                             forwards = cs.targets and all('bytealigned' in g.params() and not g.name.startswith(('_find', '_rfind')) for g, _ in cs.targets)
                             if sink or not forwards:
                                 bad = (cs, a)
-                if bad:
+                if not bad:
+                    # values derived from the parameter in any other way (e.g. `bytealigned or options.bytealigned`)
+                    for x in own_walk(f.node):
+                        tgt = val = None
+                        if isinstance(x, ast.Assign) and len(x.targets) == 1 and isinstance(x.targets[0], ast.Name):
+                            tgt, val = x.targets[0].id, x.value
+                        elif isinstance(x, ast.AnnAssign) and isinstance(x.target, ast.Name) and x.value is not None:
+                            tgt, val = x.target.id, x.value
+                        if tgt and tgt not in clean and any(isinstance(y, ast.Name) and y.id == 'bytealigned' for y in ast.walk(val)) \
+                                and not (isinstance(x, ast.Assign) and tgt == 'bytealigned' and any(x.lineno > ln for ln in resolved_in_place)):
+                            if isinstance(val, ast.Call) and isinstance(val.func, ast.Attribute) and val.func.attr in ('findall', 'find', 'rfind', '_replace', 'replace', 'split'):
+                                continue      # the parameter is forwarded to a sibling
+                            if isinstance(val, ast.Call) and ast.unparse(val.func) in ('functools.partial',) and 'bytealigned_' in ast.unparse(val):
+                                continue
+                            if isinstance(val, ast.Call):
+                                continue
+                            bad = (type('X', (), {'name': f'{tgt} = {norm(val)[:50]}'})(), val)
+                if bad and not hasattr(bad[0], 'targets'):
+                    r.fail(f.key, f'{name}: bytealigned default form', f"{c}.{name} derives the alignment flag as `{bad[0].name}`: only None may be "
+                           'replaced by options.bytealigned; any other form lets the option override an explicit False or lets None through',
+                           loc=f.loc(bad[1]))
+                elif bad:
                     r.fail(f.key, f'{name}: raw bytealigned -> {bad[0].name}', f"{c}.{name} hands its bytealigned parameter (None by default) to "
                            f"{bad[0].name} without resolving None through options.bytealigned: the module-wide option is ignored",
                            loc=f.loc(bad[1]))
@@ -333,10 +366,10 @@ def rule_E6(ctx):
                         if len(params) < 2:
                             raise AnalysisError(f'{f.key}: count parameter missing')
                         v = params[1]
-                        g = G.find_guard(f, lambda t: G.test_is_negative(t, v), exc=exc)
+                        g = G.find_guard(f, lambda t: G.test_is_negative(t, v), exc=exc, dominate_returns=True)
                         what = f"negative {v}"
                     else:
-                        g = G.find_guard(f, lambda t: G.test_is_empty(t, 'self'), exc=exc)
+                        g = G.find_guard(f, lambda t: G.test_is_empty(t, 'self'), exc=exc, dominate_returns=True)
                         what = 'an empty bitstring'
                     if g is None:
                         # pure delegation (e.g. __rmul__ -> __mul__) is fine
@@ -391,6 +424,28 @@ def rule_E7(ctx):
         else:
             r.ok(f'{c.key}', {'instance': c.key, 'guard': norm(good.test)})
     return r
+
+
+def _linear(e):
+    """(sorted tuple of (name, coeff), constant) for sums/differences of names and integer constants; None otherwise."""
+    coeffs, const = {}, 0
+
+    def rec(x, sign):
+        nonlocal const
+        if isinstance(x, ast.Constant) and isinstance(x.value, int):
+            const += sign * x.value
+            return True
+        if isinstance(x, ast.Name):
+            coeffs[x.id] = coeffs.get(x.id, 0) + sign
+            return True
+        if isinstance(x, ast.BinOp) and isinstance(x.op, ast.Add):
+            return rec(x.left, sign) and rec(x.right, sign)
+        if isinstance(x, ast.BinOp) and isinstance(x.op, ast.Sub):
+            return rec(x.left, sign) and rec(x.right, -sign)
+        return False
+    if not rec(e, 1):
+        return None
+    return tuple(sorted((k, v) for k, v in coeffs.items() if v)), const
 
 
 def rule_D2(ctx):
@@ -455,7 +510,24 @@ def rule_D2(ctx):
                 pre = [y for y in own_walk(f.node) if isinstance(y, ast.If) and 'len(self)' in ast.unparse(y.test) and 'ReadError' in G.raises_in(y.body)
                        and y.lineno < x.lineno]
                 if pre:
-                    r.ok(f'{f.key}:{norm(x)}')
+                    # the test must be exactly `<slice end> > len(self)` (as linear forms), with no assignment in between
+                    t = pre[-1].test
+                    upper = x.slice.upper
+                    diff = None
+                    if isinstance(t, ast.Compare) and len(t.ops) == 1 and isinstance(t.ops[0], (ast.Gt, ast.GtE)) and G.is_len_of(t.comparators[0], 'self') and upper is not None:
+                        a, b = _linear(t.left), _linear(upper)
+                        if a is not None and b is not None and a[0] == b[0]:
+                            diff = a[1] - b[1] + (1 if isinstance(t.ops[0], ast.GtE) else 0)
+                    between = [y for y in own_walk(f.node) if isinstance(y, (ast.Assign, ast.AugAssign)) and pre[-1].lineno < y.lineno < x.lineno]
+                    if diff is None or between:
+                        raise AnalysisError(f'{f.key}: remaining-bits test before {norm(x)} not in a comparable form (needs a human)')
+                    if diff != 0:
+                        r.fail(f.key, f'{norm(t)} vs {norm(x)}', f"the remaining-bits test is off by {-diff} against the end of the slice it protects: "
+                               + ('a codeword truncated by that many bits is decoded from fewer bits and the returned position lies beyond the end'
+                                  if diff < 0 else 'a complete codeword at the very end of the data is rejected'), loc=f.loc(pre[-1]),
+                               extra={'props': ['C10', 'C06']})
+                    else:
+                        r.ok(f'{f.key}:{norm(x)}', {'instance': f.key, 'slice': norm(x), 'guard': norm(t), 'verdict': 'guard bound == slice end'})
                 else:
                     r.fail(f.key, x, 'slice read of the code suffix without a preceding remaining-bits test: a truncated codeword is decoded '
                            'from fewer bits instead of raising ReadError', loc=f.loc(x))
@@ -616,4 +688,30 @@ def rule_E10(ctx):
         r.fail(res['equals'][0].key, 'equals(array.array): itemsize not consulted', 'equality with an array.array must compare item widths', loc=res['equals'][0].loc())
     else:
         r.ok('equals itemsize')
+    return r
+
+
+def rule_E11(ctx):
+    """replace() limits the number of NON-overlapping matches itself: its count never becomes findall's count."""
+    m = ctx.m
+    r = RuleResult('E11', "replace's count is applied after overlap filtering (never handed to findall, which counts overlapping matches)")
+    n = 0
+    for c in sorted(MUTABLE):
+        for f in m.winner(c, '_replace') + m.winner(c, 'replace'):
+            if 'count' not in f.params():
+                continue
+            n += 1
+            bad = None
+            for x in own_walk(f.node):
+                if isinstance(x, ast.Call) and isinstance(x.func, ast.Attribute) and x.func.attr in ('findall', '_findall', 'findall_msb0'):
+                    for a in list(x.args[3:4]) + [k.value for k in x.keywords if k.arg == 'count']:
+                        if any(isinstance(y, ast.Name) and y.id == 'count' for y in ast.walk(a)):
+                            bad = x
+            if bad is not None:
+                r.fail(f.key, bad, "findall's count limits ALL matches including overlapping ones, replace's count limits the non-overlapping "
+                       'matches it actually replaces: with self-overlapping patterns too few replacements are made', loc=f.loc(bad))
+            else:
+                r.ok(f.key)
+    if n < 2:
+        raise AnalysisError('replace/_replace with a count parameter not found')
     return r
